@@ -203,3 +203,141 @@ def run_checksums(repo_copy, d, nf, cc="gcc", copts=("-O0",)):
     if len(out) != nf:
         raise RuntimeError(f"constants module answered {len(out)} of {nf} (rc={r.returncode}) {r.stderr[-300:]}")
     return [int(x, 16) for x in out]
+
+
+# ----------------------------------------------------------------------------------------------------------------------
+# constant expressions in EVERY position that consumes their literal: besides function bodies and global initialisers
+# (above; the literal is assigned to a U32/U64/F32/F64 lvalue) the offset of an ACTIVE DATA SEGMENT — `LOAD_DATA(mem, <literal>,
+# seg, len)` uses the literal as an array index, where its C type (signedness, width) matters — and the offset of an element
+# segment (`offset = <literal>;`).  Offsets with the top bit set need a memory of more than 32768 pages: the module declares 32769
+# pages (calloc'ed by the runtime, so only the pages touched are backed); NOTHING dumps or hashes that memory — the segments are read
+# back through an exported i32.load in small windows around each offset (seeded C07/12: `U` dropped after negative i32 literals,
+# the segment is copied 2 GiB below the memory).  A fault / trap while instantiating is an answer.
+
+POS_PAGES = 0x8001
+POS_TABLE = 70000
+POS_MEM_BYTES = POS_PAGES * 65536
+
+
+def positions_plan(rng, n_random=6):
+    """-> (data segments [(offset bits, 4 tag bytes, pad)], element segments [(offset, pad)])"""
+    offs = [0x10, 0xFFFC, 0x10000, 0x7FFFFFF0, 0x7FFFFFFC, 0x80000000, 0x80000010, 0x80008000, POS_MEM_BYTES - 4]
+    while len(offs) < 9 + n_random:
+        o = rng.randrange(0x80000000, POS_MEM_BYTES - 4) & ~3 if rng.random() < 0.7 else rng.randrange(0x100, 0x7FFFFFF0) & ~3
+        if all(abs(o - p) >= 16 for p in offs):
+            offs.append(o)
+    data = [(o, struct.pack("<I", 0xA5000000 | (0x5A5A5A ^ (k * 0x010203 + 0x11))), (k % 3) and (k % 5)) for k, o in enumerate(offs)]
+    elems = [(o, k % 4) for k, o in enumerate([0, 1, 0x7F, 0x80, 0x3FFF, 0x4000, 0xFFFF, 0x10000, POS_TABLE - 1])]
+    return data, elems
+
+
+def positions_module(data, elems):
+    """memory of POS_PAGES pages; table of POS_TABLE funcrefs; one active data segment per `data` entry (i32.const offset, LEB padded);
+    one element segment per `elems` entry holding function 3+k (returns 1000+k); exports peek(addr)=i32.load, calli(i)=call_indirect,
+    size()=memory.size"""
+    leb, vec, sec = opmods.leb, opmods.vec, opmods.sec
+    I32 = 0x7F
+    types = vec([bytes([0x60, 0x01, I32, 0x01, I32]), bytes([0x60, 0x00, 0x01, I32])])
+    nfun = 3 + len(elems)
+    funcs = vec([leb(0), leb(0), leb(1)] + [leb(1)] * len(elems))
+    table = vec([bytes([0x70, 0x00]) + leb(POS_TABLE)])
+    memory = vec([bytes([0x00]) + leb(POS_PAGES)])
+    exports = vec([leb(len(nm)) + nm + bytes([0x00]) + leb(k) for k, nm in enumerate([b"peek", b"calli", b"size"])])
+    elem = vec([bytes([0x00, 0x41]) + sleb(o, 32, pad) + b"\x0b" + vec([leb(3 + k)]) for k, (o, pad) in enumerate(elems)])
+    bodies = [bytes([0x00, 0x20, 0x00, 0x28, 0x02, 0x00, 0x0B]),                    # local.get 0; i32.load
+              bytes([0x00, 0x20, 0x00, 0x11, 0x01, 0x00, 0x0B]),                    # local.get 0; call_indirect (type 1) table 0
+              bytes([0x00, 0x3F, 0x00, 0x0B])]                                      # memory.size
+    bodies += [b"\x00\x41" + sleb(1000 + k, 32) + b"\x0b" for k in range(len(elems))]
+    code = vec([leb(len(b)) + b for b in bodies])
+    dsec = vec([bytes([0x00, 0x41]) + sleb(o, 32, pad) + b"\x0b" + leb(len(b)) + b for o, b, pad in data])
+    assert nfun == len(bodies)
+    return (b"\x00asm\x01\x00\x00\x00" + sec(1, types) + sec(3, funcs) + sec(4, table) + sec(5, memory) + sec(7, exports)
+            + sec(9, elem) + sec(10, code) + sec(11, dsec))
+
+
+def positions_calls(data, elems):
+    """[(export, argument, expected i32, what)] — the segment's word at its offset, zero just below and above it"""
+    calls = [("size", None, POS_PAGES, "memory.size")]
+    taken = {o for o, _, _ in data}
+    for o, b, _ in data:
+        calls.append(("peek", o, struct.unpack("<I", b)[0], f"data segment with offset {o:#x}: i32.load at {o:#x}"))
+        for a in (o - 4, o + 4):
+            if 0 <= a <= POS_MEM_BYTES - 4 and a not in taken:
+                calls.append(("peek", a, 0, f"untouched word next to the data segment with offset {o:#x}: i32.load at {a:#x}"))
+    for k, (o, _) in enumerate(elems):
+        calls.append(("calli", o, 1000 + k, f"element segment with offset {o:#x}: call_indirect {o:#x}"))
+    return calls
+
+
+POS_MAIN = r'''
+#include <stdio.h>
+#include <string.h>
+#include <signal.h>
+#include <unistd.h>
+#include "w2c2_base.h"
+#include "p.h"
+static const char* phase = "instantiate";
+void trap(Trap t) { printf("trap %s %d\n", phase, (int)t); fflush(stdout); _exit(0); }
+static void fault(int sig) { char b[96]; int n = snprintf(b, sizeof b, "fault %s signal %d\n", phase, sig); fflush(stdout); (void)!write(1, b, n); _exit(0); }
+static void* resolve(const char* m, const char* n) { (void)m; (void)n; return NULL; }
+static pInstance inst;
+int main(void) {
+  signal(SIGSEGV, fault); signal(SIGBUS, fault);
+  pInstantiate(&inst, resolve);
+  printf("instantiated\n"); fflush(stdout);
+@@CALLS@@
+  return 0;
+}
+'''
+
+
+def positions_run(repo_copy, workdir, data, elems, w2c2_exe, cc="gcc", copts=("-O1",), w2c2_opts=(), tag="p"):
+    """-> (answers: ['instantiated' | 'fault …' | 'trap …', then one value/trap/fault line per call], LOAD_DATA lines of the emitted C)"""
+    d = os.path.join(workdir, "constpos_" + tag)
+    os.makedirs(d, exist_ok=True)
+    wasm = positions_module(data, elems)
+    open(os.path.join(d, "p.wasm"), "wb").write(wasm)
+    p = subprocess.run([w2c2_exe] + list(w2c2_opts) + ["p.wasm", "p.c"], cwd=d, stdout=subprocess.PIPE, stderr=subprocess.PIPE, text=True, timeout=300)
+    if p.returncode != 0:
+        raise RuntimeError("w2c2 failed on the constant-positions module: " + p.stderr[-500:])
+    calls = positions_calls(data, elems)
+    lines = []
+    for k, (fn, arg, _, _) in enumerate(calls):
+        lines.append('  phase = "call %d"; printf("%%x\\n", (unsigned) p_%s(&inst%s)); fflush(stdout);' % (k, fn, "" if arg is None else ", %uU" % arg))
+    open(os.path.join(d, "main.c"), "w").write(POS_MAIN.replace("@@CALLS@@", "\n".join(lines)))
+    exe = os.path.join(d, "p_" + cc)
+    q = subprocess.run([cc] + list(copts) + ["-I", os.path.join(repo_copy, "w2c2"), "-I", d, os.path.join(d, "main.c"), os.path.join(d, "p.c"), "-lm", "-o", exe],
+                       stdout=subprocess.PIPE, stderr=subprocess.PIPE, text=True, timeout=600)
+    if q.returncode != 0:
+        raise RuntimeError("compiling the translated constant-positions module failed: " + q.stderr[-800:])
+    r = subprocess.run([exe], stdout=subprocess.PIPE, stderr=subprocess.PIPE, text=True, timeout=120)
+    out = r.stdout.splitlines()
+    if r.returncode != 0 and not any(l.startswith(("fault", "trap")) for l in out):
+        out.append(f"fault {'instantiate' if not out else 'call %d' % (len(out) - 1)} exit status {r.returncode}")
+    ctext = open(os.path.join(d, "p.c")).read()
+    return out, [l.strip() for l in ctext.splitlines() if "LOAD_DATA(" in l or l.strip().startswith("offset=") or l.strip().startswith("offset =")], wasm
+
+
+def positions_judge(data, elems, out):
+    """-> [(what, expected, got)] for every call whose answer differs (a fault / trap ends the list: nothing after it ran)"""
+    calls = positions_calls(data, elems)
+    bad = []
+    if not out or out[0] != "instantiated":
+        return [("instantiation (loading the data and element segments)", "instantiated", out[0] if out else "no answer")]
+    for k, (fn, arg, want, what) in enumerate(calls):
+        got = out[1 + k] if 1 + k < len(out) else "no answer"
+        if got != "%x" % want:
+            bad.append((what, "%#x" % want, got if got.startswith(("fault", "trap", "no ")) else "0x" + got))
+            if got.startswith(("fault", "trap", "no ")):
+                break
+    return bad
+
+
+def positions_v8(data, elems):
+    """the same calls in V8 (oracle for the expectations built into positions_calls) -> list of mismatches"""
+    from wasmgen import v8
+    calls = positions_calls(data, elems)
+    res = v8.run(positions_module(data, elems), [(fn.encode(), [] if arg is None else [("i32", arg)]) for fn, arg, _, _ in calls], timeout=60.0)
+    if res.instantiate != ("ok",):
+        return [("instantiate", res.instantiate)]
+    return [(what, want, r) for (fn, arg, want, what), r in zip(calls, res.results) if r != ("val", [("i32", want)])]
